@@ -19,6 +19,14 @@
                                                                   `append_descriptor(self.rdm_descriptors, …)`)
     `setEls`   write elements of the *existing* array            (`a[...] = …`)
 
+  Two *write disciplines* of `RDMs.reorder / sort_by / append` are modelled (`Disc`):
+    `assignInto`  the code up to commit 886ec151/453f6048: `self.pattern_descriptors[k] = …`,
+                  `append_descriptor(self.rdm_descriptors, …)` write into the existing dictionaries;
+    `rebind`      the current code: `self.pattern_descriptors = {…}`,
+                  `self.rdm_descriptors = append_descriptor(dict(self.rdm_descriptors), …)` bind new ones.
+  The footprint `wr` and the separation predicate depend on the discipline: under `rebind`
+  no dictionary object is ever written, so sharing one is harmless.
+
   No Mathlib.  Values are opaque tags (`String`); the model only moves them.
 -/
 import Rsa.Core.Tri
@@ -76,22 +84,30 @@ def writableDict (name : String) : Bool :=
     alphabet has no write to them through it -/
 def heldInDict (name : String) : Bool := name.toList.contains '['
 
+/-- how `RDMs.reorder / sort_by / append` update descriptor dictionaries -/
+inductive Disc where
+  /-- assign into the existing dictionary object (the tree before 886ec151 / 453f6048) -/
+  | assignInto
+  /-- bind a freshly built dictionary (the current tree) -/
+  | rebind
+  deriving Repr, DecidableEq, Inhabited
+
 /-- locations of one attribute that some documented in-place operation may write -/
-def fieldWr (p : String × Field) : List Loc :=
+def fieldWr (d : Disc) (p : String × Field) : List Loc :=
   match p.2 with
   | .arr _ els => if heldInDict p.1 then [] else els
-  | .dict l => if writableDict p.1 then [l] else []
+  | .dict l => if d == Disc.assignInto && writableDict p.1 then [l] else []
 
 def cellReach (c : Cell) : List Loc := (fieldsOf c).flatMap (fun p => fieldLocs p.2)
-def cellWr (c : Cell) : List Loc := (fieldsOf c).flatMap fieldWr
+def cellWr (d : Disc) (c : Cell) : List Loc := (fieldsOf c).flatMap (fieldWr d)
 
 /-- everything readable through the object at `r` -/
 def reach (h : Heap) (r : Loc) : List Loc := r :: cellReach (h.cells r)
 /-- the part of `reach` that an in-place operation on `r` may write (its footprint) -/
-def wr (h : Heap) (r : Loc) : List Loc := r :: cellWr (h.cells r)
+def wr (d : Disc) (h : Heap) (r : Loc) : List Loc := r :: cellWr d (h.cells r)
 
 def reachSide (h : Heap) (rs : List Loc) : List Loc := rs.flatMap (reach h)
-def wrSide (h : Heap) (rs : List Loc) : List Loc := rs.flatMap (wr h)
+def wrSide (d : Disc) (h : Heap) (rs : List Loc) : List Loc := rs.flatMap (wr d h)
 
 def lookupField (fs : List (String × Field)) (name : String) : Option Field :=
   (fs.find? (fun p => p.1 == name)).map (·.2)
@@ -151,6 +167,11 @@ inductive Instr where
   | setDict (field : DictField) (d : Desc)
   | setEls (field : String) (vals : List Val)
   deriving Repr, Inhabited
+
+/-- `setDict` (assignment into an existing dictionary) exists only in the `assignInto` discipline -/
+def Instr.ok (d : Disc) : Instr → Bool
+  | .setDict _ _ => d == Disc.assignInto
+  | _ => true
 
 /-- one instruction executed on the object at `a` -/
 def exec (h : Heap) (a : Loc) : Instr → Heap
@@ -216,7 +237,15 @@ def findIdx (l : List Val) (x : Val) : Nat := (l.findIdx? (· == x)).getD l.leng
 def argsortStable (keys : List Val) : List Nat :=
   (List.range keys.length).mergeSort (fun i j => !(keys.getD j "" < keys.getD i ""))
 
-def reorderInstrs (h : Heap) (a : Loc) (perm : List Nat) (reindex : Bool) : List Instr :=
+/-- `[list(descriptor).index(x) for x in new_order]` (old) /
+    `[idx for x in dict.fromkeys(new_order) for idx, d in enumerate(descriptor) if d == x]` (current) -/
+def sortPerm (d : Disc) (desc : List Val) (order : List Val) : List Nat :=
+  match d with
+  | .assignInto => order.map (findIdx desc)
+  | .rebind => order.eraseDups.flatMap (fun x =>
+      (List.range desc.length).filter (fun i => desc.getD i "" == x))
+
+def reorderInstrs (d : Disc) (h : Heap) (a : Loc) (perm : List Nat) (reindex : Bool) : List Instr :=
   let (shape, vals) := readArr h a "dissimilarities"
   let nrdm := shape.getD 0 0
   let k := shape.getD 1 0
@@ -226,24 +255,30 @@ def reorderInstrs (h : Heap) (a : Loc) (perm : List Nat) (reindex : Bool) : List
   let pd' : Desc := pd.map (fun p => (p.1, permList perm p.2))
   let pd'' := if reindex then setDesc pd' "index" (indexVals perm.length) else pd'
   [ .newArr "dissimilarities" [nrdm, Rsa.triLen perm.length] rows.flatten,
-    .setDict .pattern pd'' ]
+    match d with
+    | .assignInto => .setDict .pattern pd''
+    | .rebind => .newDict DictField.pattern.name pd'' ]
 
 /-- the instruction list an operation on the object at `a` executes; all reads happen first -/
-def compile (h : Heap) (a : Loc) : Op → List Instr
+def compile (d : Disc) (h : Heap) (a : Loc) : Op → List Instr
   | .fill field vals => [.setEls field vals]
-  | .reorder perm => reorderInstrs h a perm false
+  | .reorder perm => reorderInstrs d h a perm false
   | .sortBy key order reindex =>
       let pd := readDict h a DictField.pattern.name
-      let perm := order.map (findIdx (lookupDesc pd key))
-      reorderInstrs h a perm reindex
+      reorderInstrs d h a (sortPerm d (lookupDesc pd key) order) reindex
   | .append n rows desc =>
       let (shape, vals) := readArr h a "dissimilarities"
       let k := shape.getD 1 0
       let rd := readDict h a DictField.rdm.name
       let rd' : Desc := rd.map (fun p => (p.1, p.2 ++ lookupDesc desc p.1))
       let rd'' := setDesc rd' "index" (indexVals (lookupDesc rd' "index").length)
-      [ .newArr "dissimilarities" [shape.getD 0 0 + n, k] (vals ++ rows),
-        .setDict .rdm rd'' ]
+      match d with
+      | .assignInto =>
+          [ .newArr "dissimilarities" [shape.getD 0 0 + n, k] (vals ++ rows),
+            .setDict .rdm rd'' ]
+      | .rebind =>
+          [ .newDict DictField.rdm.name rd'',
+            .newArr "dissimilarities" [shape.getD 0 0 + n, k] (vals ++ rows) ]
   | .dsSortBy by_ =>
       let (shape, vals) := readArr h a "measurements"
       let nobs := shape.getD 0 0
@@ -253,20 +288,20 @@ def compile (h : Heap) (a : Loc) : Op → List Instr
       [ .newArr "measurements" shape (permList order (rowsOf nobs k vals)).flatten,
         .newDict "obs_descriptors" (od.map (fun p => (p.1, permList order p.2))) ]
 
-def step (h : Heap) (a : Loc) (op : Op) : Heap := execAll h a (compile h a op)
+def step (d : Disc) (h : Heap) (a : Loc) (op : Op) : Heap := execAll h a (compile d h a op)
 
 /-- a history: which object is operated on, with which operation -/
-def run (h : Heap) : List (Loc × Op) → Heap
+def run (d : Disc) (h : Heap) : List (Loc × Op) → Heap
   | [] => h
-  | (a, op) :: rest => run (step h a op) rest
+  | (a, op) :: rest => run d (step d h a op) rest
 
 /-! ### separation (decidable, evaluated by the driver on the observed heap) -/
 
 def disjointL (xs ys : List Loc) : Bool := xs.all (fun l => !ys.contains l)
 
 /-- no location that an operation on one side may write is readable from the other side -/
-def sepB (h : Heap) (as bs : List Loc) : Bool :=
-  disjointL (wrSide h as) (reachSide h bs) && disjointL (wrSide h bs) (reachSide h as)
+def sepB (d : Disc) (h : Heap) (as bs : List Loc) : Bool :=
+  disjointL (wrSide d h as) (reachSide h bs) && disjointL (wrSide d h bs) (reachSide h as)
 
 /-! ### producers (for the theorems and witnesses): a new object built from a source -/
 
